@@ -93,6 +93,17 @@ def sub_align(case):
         ro = PosePath3D(poses_se3=ref_mats)
         eo = PosePath3D(poses_se3=list(ref_mats[:k]) + [T.copy() for T in est.poses[k:]])
         est = trajgen.Real(np.vstack([ref.P[:k], est.P[k:]]), ref.Rs()[:k] + est.Rs()[k:], "se3")
+    if case.get("int_pos") and est.mode == "pq" and not case.get("share_mats"):
+        # positions given as an integer array (e.g. integer millimetres): the alignment still works in floating point
+        from evo.core.trajectory import PosePath3D
+        f = 1000.0 / max(float(np.abs(est.P).max()), float(np.abs(ref.P).max()), 1e-300)
+        Pi = np.round(est.P * f).astype(np.int64)
+        est = trajgen.Real(Pi.astype(float), est.Rs(), "pq")
+        ref = trajgen.Real(ref.P * f, ref.Rs(), ref.mode)
+        ro = ref.build(case["ref"]["pre"])
+        eo = PosePath3D(positions_xyz=Pi, orientations_quat_wxyz=est.Q.copy())
+        for v in case["est"]["pre"]:
+            getattr(eo, v)
     sref = snapshot.snapshot(ro)
     cs, cos = _mode_args(mode)
     try:
@@ -339,7 +350,7 @@ def _st_case(min_n, max_n, extra):
     return st.integers(min_n, max_n).flatmap(mk)
 
 
-st_align = _st_case(3, 24, {"share_mats": st.sampled_from([False, False, False, True]), "mode": st.sampled_from(["rigid", "similarity", "scale", "scale_both"]),
+st_align = _st_case(3, 24, {"int_pos": st.sampled_from([False, False, False, True]), "share_mats": st.sampled_from([False, False, False, True]), "mode": st.sampled_from(["rigid", "similarity", "scale", "scale_both"]),
                             "n": st.one_of(st.just(-1), st.integers(0, 40))})
 st_origin = _st_case(1, 12, {"near": st.one_of(st.none(), st.none(), st.fixed_dictionaries({
     "dir": st.lists(gen.unit_f, min_size=3, max_size=3), "wexp": st.sampled_from([0, 3, 5, 6, 7]), "d": st.lists(gen.unit_f, min_size=3, max_size=3),
